@@ -13,6 +13,23 @@ CHECKS = {
         note='trusted: pyvc encoding, z3/cvc5, attrs-generated __init__ reconstruction, finiteness of Python sets, '
              'CPython finaliser timing; node-id ownership is bounded-only (one known finding recorded).'),
 }
+CHECKS['C14'] = dict(
+    category='other',
+    technique='contract-based deductive verification of the wire kernels (pyvc lemmas over statement fragments of '
+              'export_binary/parse_bin located in the AST on every run, TIME conversion, from_kv1 loop iterations; AST '
+              'obligations for string table, formats, escaping, encodings); bounded generator-based graph round trips',
+    text='Proved on the real code: the type byte written by export_binary is decoded by parse_bin to the same value type '
+         'and scalar/array shape for all 14 types (encoder statements followed by decoder statements, full finite domain); '
+         'the TIME tick conversion is the identity on every 32-bit tick count and within half a tick otherwise (real '
+         'arithmetic); from_kv1 stores a leaf as an attribute only when its folded name is neither reserved nor repeated '
+         '(per-iteration lemmas + AST glue). AST obligations: every string looked up in the binary string table was '
+         'collected under the same conditions (guards evaluated exhaustively over version x type x shape), both '
+         'directions use the same struct formats per version, every KeyValues2 text goes through escape_text, every '
+         'string is decoded with the encoding it was written in, stub markers carry their UUID. The graph isomorphism '
+         'itself (sharing, cycles, stubs, NULLs, order, all types x versions 1-5 x unicode modes, KeyValues2 nested/flat x '
+         'cull_uuid, KV1 bridge also through files) is a bounded stand-in over generated graphs - not counted as proved.',
+    note='trusted: struct pack/unpack, uuid, float arithmetic as real arithmetic in the TIME lemma (IEEE behaviour sampled '
+         'natively), escape/unescape inverse from C02.')
 CHECKS['C15'] = dict(
     category='other',
     technique='contract-based deductive verification of the pixel-codec kernels (pyvc bit-vector VCs over the real '
